@@ -106,8 +106,11 @@ def mutDepth : String → Nat
   | "code" | "alias" | "storages" | "balances" | "sha3s" | "cnts" | "jumpis" | "block" | "known_keys" | "known_sigs" => 1
   | _ => 0
 
-/-- registries that sibling paths share on purpose (address ↦ private key, signatures): a key learnt on one path is visible on
-its siblings — the known benign leak; `isolation` makes no claim about these fields -/
+/-- registries that `create_branch` shares between sibling paths on purpose (address ↦ private key, (key, digest) ↦ signature):
+an entry made on one path is visible on its siblings; `isolation` makes no claim about these fields. The leak is NOT benign:
+`vm.sign` adds its constraints only on the path that creates the entry, so a sibling signing the same (key, digest) later gets
+the terms unconstrained (known finding C20 `vm-sign-constraints-skipped-on-sibling|…`, tools/props/c20.py `sign:*` programs;
+`Props.C20.isolation_needs_copy_cex` is the abstract form). -/
 def sharedByDesign : List String := ["known_keys", "known_sigs"]
 
 def pathMutDepth : String → Nat
